@@ -82,11 +82,11 @@ class HpMutation(Case):
 
     INT_FACTORS = (0.8, 1.2)
 
-    def __init__(self, algo, hps, n_agents=2, history="initial", second=False, one_lr_object=False, mixed=False):
+    def __init__(self, algo, hps, n_agents=2, history="initial", second=False, one_lr_object=False, mixed=False, equal_lr_values=False):
         self.algo, self.hps, self.n, self.history, self.second = algo, tuple(hps), n_agents, history, second
-        self.one_lr_object, self.mixed = one_lr_object, mixed
+        self.one_lr_object, self.mixed, self.equal_lr_values = one_lr_object, mixed, equal_lr_values
         self.name = (f"hpmut-{algo.lower()}-{'+'.join(hps)}-pop{n_agents}-{history}" + ("-twice" if second else "") + ("-one-lr-object" if one_lr_object else "")
-                     + ("-bounds-of-the-other-number-type" if mixed else ""))
+                     + ("-bounds-of-the-other-number-type" if mixed else "") + ("-equal-lr-values-in-two-objects" if equal_lr_values else ""))
         self.site = "Mutations.rl_hyperparam_mutation"
         # the INIT_HP of this case binds LR_ACTOR and LR_CRITIC to ONE float object (as two equal literals in one dict do)
         self.fsite = "OptimizerWrapper._infer_lr_name/one-object-for-two-learning-rates" if one_lr_object else None
@@ -98,6 +98,12 @@ class HpMutation(Case):
         name, ospace, aspace, init_hp, kinds, opt_of = ALGOS[self.algo]
         if self.one_lr_object:
             init_hp = dict(init_hp, LR_ACTOR=LR_A, LR_CRITIC=LR_A)
+        if self.equal_lr_values:
+            # the two rates equal by VALUE but held in two float objects (e.g. parsed from a config file)
+            other = float(repr(LR_A))
+            if other is LR_A or other != LR_A:
+                raise HarnessError("could not make a second float object of equal value")
+            init_hp = dict(init_hp, LR_ACTOR=LR_A, LR_CRITIC=other)
         S = lambda default: self.fsite or default
         sym = v.mode != "real"
         cfg, spec = {}, {}
@@ -133,6 +139,14 @@ class HpMutation(Case):
             if self.history == "after-clone":
                 # a generation later: every member is a clone (tournament selection builds the next population from clones)
                 pop = [a.clone(index=10 + i) for i, a in enumerate(pop)]
+            if self.history == "after-clone-while-rates-are-one-object":
+                # both learning rates have (legitimately) become ONE object - e.g. both were clipped to a bound object their
+                # two RLParameters share - and then the agent is cloned: the clone keeps the parent's optimizer bookkeeping
+                shared = 0.00123
+                for a in pop:
+                    a.lr_actor = shared
+                    a.lr_critic = shared
+                pop = [a.clone(index=20 + i) for i, a in enumerate(pop)]
             if self.history == "after-step":
                 # in training: every optimiser has been stepped (it holds moments), as after a learn() call
                 for a in pop:
@@ -237,6 +251,7 @@ def cases(tier):
           HpMutation("DDPG", ["lr_critic"], n_agents=1, one_lr_object=True), HpMutation("DQN", ["lr"], n_agents=1, history="after-step"),
           HpMutation("DDPG", ["lr_actor", "lr_critic"], n_agents=1, history="after-step"),
           HpMutation("DQN", ["batch_size"], n_agents=1, mixed=True), HpMutation("DQN", ["gamma"], n_agents=1, mixed=True),
+          HpMutation("DDPG", ["lr_critic"], n_agents=1, equal_lr_values=True), HpMutation("DDPG", ["lr_critic"], n_agents=1, history="after-clone-while-rates-are-one-object"),
           HpMutation("PPO", ["lr"], n_agents=1), HpMutation("TD3", ["lr_critic"], n_agents=1), HpMutation("DQN", ["gamma", "tau"], n_agents=1, second=True)]
     if tier == "thorough":
         cs += [HpMutation("DQN", ["lr", "batch_size", "learn_step"], n_agents=3), HpMutation("DDPG", ["lr_actor", "lr_critic", "batch_size"]),
